@@ -1931,6 +1931,15 @@ fn run_ops_light<K: KeyT>(world: &mut World<K>, ops: &[Vec<&str>], out: &mut Str
         reported += 1;
     };
     for (opno, toks) in ops.iter().enumerate() {
+        // `EXP <expected> <op ...>`: the generator states the answer itself (used where the model runner would be
+        // too slow); any other answer is a finding
+        if toks.first() == Some(&"EXP") && toks.len() >= 3 {
+            let (result, _ev) = world.exec(&toks[2..]);
+            if result != toks[1] {
+                rep(sink, opno, "EXP", format!("`{}` answered {} where {} is the only right answer", toks[2..].join(" "), result, toks[1]));
+            }
+            continue;
+        }
         let (result, _ev) = world.exec(toks);
         if opno < 4 || opno + 12 >= ops.len() {
             let _ = writeln!(out, "{} {} {}", world.id, opno, result);
@@ -1965,6 +1974,10 @@ fn run_ops_light<K: KeyT>(world: &mut World<K>, ops: &[Vec<&str>], out: &mut Str
                 }
             }
         }
+    }
+    // cases that state their own expectations are checked by those alone
+    if ops.iter().any(|t| t.first() == Some(&"EXP")) {
+        return;
     }
     // the end: every shadowed pair still resolves, get agrees, len agrees
     let n = by_key.len();
